@@ -282,6 +282,9 @@ def uniformRangesOK (rows cols : Int) (k : UniformKernel) : Bool :=
   ((intRange 0 (rows - 1)).all fun r => (intRange 0 (cols - 1)).all fun c => decide (k.InRange r c))
 
 def handleUniformRanges (inp obs : List String) : String :=
+  -- the class no longer has the two member distributions the probe reads: the model of the internals no longer
+  -- applies (reported as a broken correspondence); the landing law itself is judged by the draw / sweep lines
+  if obs == ["na", "na", "na", "na"] then "MISMATCH kern.uniform.ranges member distributions not found" else
   match parseInts? inp, parseInts? obs with
   | some [rows, cols], some [rlo, rhi, clo, chi] =>
     let k : UniformKernel := { rowMax := rows, colMax := cols, rowLo := rlo, rowHi := rhi, colLo := clo, colHi := chi }
